@@ -49,7 +49,7 @@ def _with_source(js, src, bad=None, rng=None):
                 and f.get("type") == [1]]
         if not nums:
             return None
-        rng.choice(nums)["value"] = rng.choice([1e15, -1e15, 2 ** 70])
+        rng.choice(nums)["value"] = rng.choice([1e15, -1e15, 2 ** 70, "@int:%d" % 2 ** 64, "@int:%d" % 2 ** 70, "@int:%d" % -(10 ** 30)])
     elif bad == "unknown_pgn":
         d["PGN"] = rng.choice([99999, 12345, 130999])
         d["id"] = "noSuchThing"
